@@ -68,7 +68,7 @@ func registerSched() {
 	run.Register(&SchedCheck{Id: "C02", Profile: "fractions", Quick: 1000, Thorough: 8000, Oracle: cyc(oracle.CheckC02), Gen: sharingShare("fractions"),
 		RuleText: genRule + "Non-trivial: a case that binds a fractional pod into a group that already has a sharer, binds a multi-fraction pod, or binds on a node with <=1 free GPU device.",
 		Assume:   []string{"one accounting unit (1/deviceMemory) of slack per sharer", "device identity of whole-GPU pods is not observable; checked as whole+shared<=count"}})
-	run.Register(&SchedCheck{Id: "C03", Profile: "gangs", Quick: 1000, Thorough: 8000, Oracle: cyc(oracle.CheckC03), SkipFaulty: true,
+	run.Register(&SchedCheck{Id: "C03", Profile: "gangs", Quick: 1000, Thorough: 8000, Oracle: cyc(oracle.CheckC03), SkipFaulty: true, PodGroupLag: true,
 		RuleText: genRule + "Non-trivial: a case in which a gang with total minimum >= 2 received a bind, nomination or eviction. Evaluated only on cases without injected API write failures.",
 		Assume:   []string{"pods whose sub-group label names no leaf sub-group are ignored (the scheduler ignores them too)", "the eviction clause is judged only for gangs that were at or above minimum in every pod set before the cycle"}})
 	run.Register(&SchedCheck{Id: "C04", Profile: "constraints", Quick: 1000, Thorough: 8000, Oracle: cyc(oracle.CheckC04),
